@@ -25,7 +25,7 @@ func main() {
 		f, _ := os.Create(pf)
 		pprof.StartCPUProfile(f)
 	}
-	c.Run(run)
+	run.Guard(func() { c.Run(run) })
 	rc := run.Finish()
 	pprof.StopCPUProfile()
 	os.Exit(rc)
